@@ -156,6 +156,17 @@ def run(tier, replay):
             pmeta.append(("peek", a))
             progs.append("W% = 1\r\nX% = 0\r\nY% = 2\r\n" + segline + "POKE VARPTR(X%%), %d\r\nPOKE VARPTR(X%%) + 1, %d\r\nPRINT X%%; W%%; Y%%\r\n" % (lo, hi))
             pmeta.append(("poke", (lo, hi)))
+    # elements FAR into a big array (offsets of 32768 and more inside the segment): the low byte is read and written where it is
+    # (address arithmetic beyond 32767 is an Overflow in this interpreter - an observed limit, see DESIGN 9.3 - so only the
+    # byte VARPTR itself points at is used)
+    for el in (16383, 16384, 16385, 17000, 20000):
+        for a in (EDGE[::5] + [rng.randint(-32768, 32767) for _ in range(2)]):
+            head = "DIM BIG%%(0 TO 20000)\r\nBIG%%(%d) = %d\r\nBIG%%(%d) = 4660\r\nBIG%%(%d) = 4660\r\n" % (el, a, el - 1, min(el + 1, 20000) if el < 20000 else el - 2)
+            progs.append(head + "DEF SEG = VARSEG(BIG%%(%d))\r\nPRINT PEEK(VARPTR(BIG%%(%d)))\r\n" % (el, el))
+            pmeta.append(("peek-far", a))
+            b_ = rng.randint(0, 255)
+            progs.append(head + "DEF SEG = VARSEG(BIG%%(%d))\r\nPOKE VARPTR(BIG%%(%d)), %d\r\nPRINT BIG%%(%d); BIG%%(%d)\r\n" % (el, el, b_, el, el - 1))
+            pmeta.append(("poke-far", (a, b_)))
     # doubles built inside BASIC: +-2^k by repeated doubling / halving, small whole numbers
     for k in list(range(0, 120, 3)) + [52, 53, 62, 63, 64, 65, 100, 200, 500, 1000, 1023]:
         for sign in (1, -1):
@@ -195,6 +206,14 @@ def run(tier, replay):
                 recs.append({"id": rid, "k": "tob", "a": arg, "res": [int(nums[0]), int(nums[1])], "text": t})
                 if nums[2:4] not in ([], ["1", "2"]):
                     rep.violation({"rendered_text": t, "observed": out, "expected": "the neighbours W% and Y% are 1 and 2"}, {"prog:neighbours"}, name="neighbours")
+            elif kind == "peek-far":
+                rid += 1
+                recs.append({"id": rid, "k": "lob", "a": arg, "res": int(nums[0]), "text": t})
+            elif kind == "poke-far":
+                rid += 1
+                recs.append({"id": rid, "k": "setlo", "a": arg[0], "b": arg[1], "res": int(nums[0]), "text": t})
+                if nums[1:2] != ["4660"]:
+                    rep.violation({"rendered_text": t, "observed": out, "expected": "the element in front of the poked one is still 4660"}, {"prog:neighbours"}, name="neighbours")
             elif kind == "poke":
                 rid += 1
                 recs.append({"id": rid, "k": "fromb", "b": list(arg), "res": int(nums[0]), "text": t})
